@@ -29,12 +29,20 @@ pub struct RoundsCase {
     pub copies: u8,
     /// vote requests to wait for before the run ends
     pub rounds: u8,
+    /// the cluster grows at run time: the config file first lists only this many peers, the others
+    /// are added right after the start (no explicit quorum, so the majority grows with it). The voters
+    /// (`votes_in_round` = Some) then answer every vote request they see once one of the added peers
+    /// has been asked for its vote, i.e. once the node works with the new configuration.
+    #[serde(default)]
+    pub initial_peers: Option<u8>,
 }
 
 struct Outcome {
     leader_line: Option<String>,
     requests_seen: u64,
     votes_sent: u64,
+    /// the script ran to its end (or a leader start ended it)
+    completed: bool,
 }
 
 async fn run_once(case: &RoundsCase) -> Result<Outcome, Failure> {
@@ -56,7 +64,11 @@ async fn run_once(case: &RoundsCase) -> Result<Outcome, Failure> {
         nodes.push(json!({"nodeId": format!("p{i}"), "address": "127.0.0.1", "raftPort": port, "syncPort": 7100 + i}));
     }
     let cfg_path = dir.join("config.yaml");
-    std::fs::write(&cfg_path, json!({"nodes": nodes}).to_string()).map_err(|e| Failure::new("c19r.fs", "write config", e.to_string()))?;
+    let initial: Vec<Value> = match case.initial_peers {
+        Some(k) => nodes.iter().take(k as usize + 1).cloned().collect(),
+        None => nodes.clone(),
+    };
+    std::fs::write(&cfg_path, json!({"nodes": initial}).to_string()).map_err(|e| Failure::new("c19r.fs", "write config", e.to_string()))?;
     let log_path = dir.join("stub.log");
     std::fs::write(&log_path, "").ok();
     let data_dir = dir.join("data");
@@ -75,6 +87,8 @@ async fn run_once(case: &RoundsCase) -> Result<Outcome, Failure> {
         .arg(crate::server::free_port().to_string())
         .arg("--data-dir")
         .arg(&data_dir)
+        .arg("--config-scan-interval")
+        .arg("1")
         .env("WBVERIF_STUB_LOG", &log_path)
         .env_remove("RUST_LOG")
         .stdin(Stdio::null())
@@ -96,6 +110,13 @@ async fn run_once(case: &RoundsCase) -> Result<Outcome, Failure> {
     }
     let child = cmd.spawn().map_err(|e| Failure::new("c19r.spawn", "the orchestrator binary starts", e.to_string()).sig(json!({"obs": "timeout"})))?;
     let _orch = Orchestrator { child };
+    // the cluster grows once the node has demonstrably started with the initial configuration
+    // (one of the initial peers has seen a vote request)
+    let mut rewritten = case.initial_peers.is_none();
+    // one of the added peers has been asked for its vote: the node works with the grown configuration
+    let grown = Arc::new(std::sync::atomic::AtomicBool::new(false));
+    // rounds in which a voter voted after the growth
+    let votes_after_growth = Arc::new(std::sync::atomic::AtomicU64::new(0));
 
     // (max number of vote requests any peer has seen, votes sent)
     let shared = Arc::new(Mutex::new((0u64, 0u64)));
@@ -106,6 +127,9 @@ async fn run_once(case: &RoundsCase) -> Result<Outcome, Failure> {
         let round = *round;
         let copies = case.copies.max(1);
         let id = format!("p{i}");
+        let initial_peers = case.initial_peers;
+        let grown = grown.clone();
+        let votes_after_growth = votes_after_growth.clone();
         tasks.push(tokio::spawn(async move {
             let mut buf = [0u8; 65507];
             let mut seen = 0u64;
@@ -118,6 +142,19 @@ async fn run_once(case: &RoundsCase) -> Result<Outcome, Failure> {
                         let mut sh = shared.lock().expect("lock");
                         sh.0 = sh.0.max(seen);
                     }
+                    if let Some(k) = initial_peers {
+                        use std::sync::atomic::Ordering::SeqCst;
+                        if i >= k as usize {
+                            grown.store(true, SeqCst);
+                        } else if round.is_some() && grown.load(SeqCst) {
+                            votes_after_growth.fetch_add(1, SeqCst);
+                            for _ in 0..copies {
+                                shared.lock().expect("lock").1 += 1;
+                                sock.send_to(json!({"vote": {"response": {"nodeId": id}}}).to_string().as_bytes(), node_addr).await.ok();
+                            }
+                        }
+                        continue;
+                    }
                     if round.map(|r| r as u64) == Some(seen) {
                         for _ in 0..copies {
                             shared.lock().expect("lock").1 += 1;
@@ -128,17 +165,31 @@ async fn run_once(case: &RoundsCase) -> Result<Outcome, Failure> {
             }
         }));
     }
-    let deadline = Instant::now() + Duration::from_secs(20);
+    let deadline = Instant::now() + Duration::from_secs(25);
     let mut leader_line = None;
+    let mut completed = false;
     loop {
         tokio::time::sleep(Duration::from_millis(10)).await;
+        if !rewritten && shared.lock().expect("lock").0 >= 1 {
+            // the complete node list replaces the initial one (atomically)
+            let tmp = dir.join("config.yaml.new");
+            std::fs::write(&tmp, json!({"nodes": nodes}).to_string()).map_err(|e| Failure::new("c19r.fs", "write config", e.to_string()))?;
+            std::fs::rename(&tmp, &cfg_path).map_err(|e| Failure::new("c19r.fs", "replace config", e.to_string()))?;
+            rewritten = true;
+        }
         let log = std::fs::read_to_string(&log_path).unwrap_or_default();
         if let Some(l) = log.lines().find(|l| l.contains("--leader ") || l.ends_with("--leader")) {
             leader_line = Some(l.to_owned());
             break;
         }
         let seen = shared.lock().expect("lock").0;
-        if seen >= case.rounds as u64 {
+        let done = match case.initial_peers {
+            // the voters have voted in two rounds since the growth
+            Some(_) => votes_after_growth.load(std::sync::atomic::Ordering::SeqCst) >= 2 * case.votes_in_round.iter().flatten().count().max(1) as u64,
+            None => seen >= case.rounds as u64,
+        };
+        if done {
+            completed = true;
             // let the last round's collection window pass
             tokio::time::sleep(Duration::from_millis(TIMEOUT_MS + 100)).await;
             let log = std::fs::read_to_string(&log_path).unwrap_or_default();
@@ -159,7 +210,7 @@ async fn run_once(case: &RoundsCase) -> Result<Outcome, Failure> {
         std::fs::copy(&keep, &copy).ok();
         eprintln!("c19r: leader start in case {} (requests seen {requests_seen}, votes sent {votes_sent}); orchestrator log: {copy}", serde_json::to_string(case).unwrap_or_default());
     }
-    Ok(Outcome { leader_line, requests_seen, votes_sent })
+    Ok(Outcome { completed: completed || leader_line.is_some(), leader_line, requests_seen, votes_sent })
 }
 
 async fn run_case(case: &RoundsCase) -> Result<CaseReport, Failure> {
@@ -167,7 +218,7 @@ async fn run_case(case: &RoundsCase) -> Result<CaseReport, Failure> {
     let quorum = n_nodes / 2 + 1;
     let first = run_once(case).await?;
     let mut rep = CaseReport::default();
-    if first.requests_seen < case.rounds as u64 && first.leader_line.is_none() {
+    if !first.completed {
         // the node did not get through its rounds within the budget
         rep.inconclusive = true;
         return Ok(rep);
@@ -185,12 +236,28 @@ async fn run_case(case: &RoundsCase) -> Result<CaseReport, Failure> {
                 }
             }
         }
+        if let Some(k) = case.initial_peers {
+            let voters = case.votes_in_round.iter().flatten().count();
+            return Err(Failure::new(
+                "c19r.leader_with_the_majority_of_the_old_configuration",
+                format!("no start in leader mode: the cluster has grown from {} to {n_nodes} nodes (no explicit quorum), so the majority is {quorum} and {} peer votes are needed; only {voters} peer(s) vote, and only after the node asked an added peer for its vote", k as usize + 1, quorum - 1),
+                format!("in 3 of 3 runs the stub was started in leader mode, e.g. '{}'", lines[0]),
+            )
+            .sig(json!({"obs": "c19r.leader_with_the_majority_of_the_old_configuration"})));
+        }
         return Err(Failure::new(
             "c19r.leader_with_votes_of_different_rounds",
             format!("no start in leader mode: quorum {quorum} of {n_nodes} nodes needs {} peer votes in one round, and in no round (nor in two adjacent rounds together) that many peers vote", quorum - 1),
             format!("in 3 of 3 runs the stub was started in leader mode, e.g. '{}'", lines[0]),
         )
         .sig(json!({"obs": "c19r.leader_with_votes_of_different_rounds"})));
+    }
+    if case.initial_peers.is_some() {
+        rep.counters.push(("vote_requests_seen", first.requests_seen));
+        rep.counters.push(("votes_sent", first.votes_sent));
+        rep.classes.push("cluster_grown_at_run_time");
+        rep.nontrivial = first.votes_sent > 0;
+        return Ok(rep);
     }
     let voting_rounds: std::collections::BTreeSet<u8> = case.votes_in_round.iter().flatten().filter(|r| **r <= case.rounds).copied().collect();
     let distinct_voters = case.votes_in_round.iter().flatten().filter(|r| **r <= case.rounds).count();
@@ -230,9 +297,32 @@ fn case() -> BoxedStrategy<RoundsCase> {
                 }
             }
             let last = votes_in_round.iter().flatten().copied().max().unwrap_or(1);
-            RoundsCase { votes_in_round, copies, rounds: last.min(3) }
+            RoundsCase { votes_in_round, copies, rounds: last.min(3), initial_peers: None }
         })
         .boxed()
+}
+
+/// the cluster grows at run time from `old` to `new` peers; `voters` old peers vote once the node
+/// works with the grown configuration: enough for the old majority, too few for the new one
+fn grow_case() -> BoxedStrategy<RoundsCase> {
+    prop_oneof![
+        // (old peers, new peers, voters): 3 -> 5 nodes (majority 2 -> 3), 3 -> 6 (2 -> 4), 5 -> 7 (3 -> 4), 2 -> 4 (2 -> 3), 3 -> 4 (2 -> 3)
+        Just((2u8, 4usize, 1usize)),
+        Just((2u8, 5usize, 1usize)),
+        Just((2u8, 5usize, 2usize)),
+        Just((4u8, 6usize, 2usize)),
+        Just((1u8, 3usize, 1usize)),
+        Just((2u8, 3usize, 1usize)),
+    ]
+    .prop_flat_map(|(old, new, voters)| (Just((old, new, voters)), prop_oneof![3 => Just(1u8), 1 => Just(3u8)]))
+    .prop_map(|((old, new, voters), copies)| {
+        let mut votes_in_round = vec![None; new];
+        for v in votes_in_round.iter_mut().take(voters.min(old as usize)) {
+            *v = Some(1);
+        }
+        RoundsCase { votes_in_round, copies, rounds: 0, initial_peers: Some(old) }
+    })
+    .boxed()
 }
 
 pub fn part(check: &mut Check, cfg: &RunCfg) {
@@ -241,10 +331,10 @@ pub fn part(check: &mut Check, cfg: &RunCfg) {
         crate::util::Tier::Thorough => 1_000,
     };
     let n = ((n as f64) * cfg.scale).max(1.0) as u64;
-    let (agg, v) = run_prop(cfg, "rounds", n, case, check_case);
+    let (agg, v) = run_prop(cfg, "rounds", n, || prop_oneof![2 => case(), 1 => grow_case()].boxed(), check_case);
     check.add_part(
         "rounds",
-        "the real orchestrator (-t 400) as one node of a 4-6 node cluster with default quorum; every scripted peer answers exactly one of the node's vote requests (the 1st or the 3rd; the 2nd round stays silent) with 1 or 3 votes, fewer peers per round than the quorum needs, while over the whole run enough distinct peers vote; oracle: the stub is never started in leader mode (reported only if it is in 3 of 3 runs of the same script; a run whose node does not get through its rounds within 20 s is inconclusive); non-trivial = votes in two rounds and the distinct voters of all rounds together reach the quorum; distinct = case",
+        "the real orchestrator (-t 400) as one node of a 4-6 node cluster with default quorum; every scripted peer answers exactly one of the node's vote requests (the 1st or the 3rd; the 2nd round stays silent) with 1 or 3 votes, fewer peers per round than the quorum needs, while over the whole run enough distinct peers vote; oracle: the stub is never started in leader mode (reported only if it is in 3 of 3 runs of the same script; a run whose node does not get through its rounds within 20 s is inconclusive); non-trivial = votes in two rounds and the distinct voters of all rounds together reach the quorum. A third of the cases instead let the cluster grow at run time (config file without explicit quorum rewritten from 2-5 to 4-7 nodes as soon as an initial peer has seen the node's first vote request, scan interval 1 s): old peers vote - enough for the old majority, too few for the new one - but only once the node has asked an added peer for its vote; same oracle (never a start in leader mode), non-trivial = a vote was sent after the growth; distinct = case",
         false,
         agg,
     );
